@@ -41,10 +41,12 @@ Record quirks := {
   q_inject_drift : bool;       (* inject jsonWalker: element counter only advances on processed elements *)
   q_inject_kind : bool;        (* inject: a non input-object node's ref indexes InputObjectTypeDefinitions *)
   q_inject_reparse : bool;     (* inject: the unquoted content of a JSON string is parsed as JSON text *)
-  q_default_null_wrap : bool   (* default extraction: a null default of a list variable becomes [null] *)
+  q_default_null_wrap : bool;  (* default extraction: a null default of a list variable becomes [null] *)
+  q_remap_collision : bool     (* validator: an Upload variable (never renamed) whose name equals a mapper-generated
+                                  name is looked up under the variable that was renamed to it *)
 }.
-Definition go_quirks : quirks := Build_quirks true true true true true true true true true.
-Definition no_quirks : quirks := Build_quirks false false false false false false false false false.
+Definition go_quirks : quirks := Build_quirks true true true true true true true true true true.
+Definition no_quirks : quirks := Build_quirks false false false false false false false false false false.
 
 (* ------------------------------------------------------------------ type helpers *)
 Definition is_nonnull (t : ty) : bool := match t with TNonNull _ => true | _ => false end.
@@ -616,6 +618,51 @@ Section Inject.
     (2 * (jdepth j + fold_right Nat.add O defaults) + 4)%nat.
 End Inject.
 
+(* ------------------------------------------------------------------ variables mapper *)
+(* astnormalization.VariablesMapper: every variable whose base type is not Upload is renamed to the next
+   unused generated name (a..z, aa..zz, ...) in the order of first use in the selection set -- taken here
+   to be the order of definition --, the definitions are then sorted by their CURRENT name, and
+   ValidateWithRemap looks a definition up under mapping[current name] when that key exists. *)
+Definition letter_name (k : nat) : name :=
+  repeat (97 + N.of_nat (Nat.modulo k 26)) (Datatypes.S (Nat.div k 26)).
+Definition is_upload_var (vd : vardef) : bool := bytes_eqb (named_of (vd_type vd)) n_Upload.
+Fixpoint assign_names (vds : list vardef) (k : nat) : list (name * vardef) :=
+  match vds with
+  | [] => []
+  | vd :: r => if is_upload_var vd then (vd_name vd, vd) :: assign_names r k
+               else (letter_name k, vd) :: assign_names r (Datatypes.S k)
+  end.
+Fixpoint bytes_ltb (a b : bytes) : bool :=
+  match a, b with
+  | _, [] => false
+  | [], _ :: _ => true
+  | x :: a', y :: b' => (x <? y) || ((x =? y) && bytes_ltb a' b')
+  end.
+(* insertion sort, stable (slices.SortFunc uses insertion sort below 12 elements) *)
+Fixpoint insert_by_name (x : name * vardef) (l : list (name * vardef)) : list (name * vardef) :=
+  match l with
+  | [] => [x]
+  | y :: r => if bytes_ltb (fst x) (fst y) then x :: l else y :: insert_by_name x r
+  end.
+Definition sort_by_name (l : list (name * vardef)) : list (name * vardef) :=
+  fold_left (fun acc x => insert_by_name x acc) l [].
+Fixpoint assoc_name (k : name) (l : list (name * name)) : option name :=
+  match l with
+  | [] => None
+  | (k', v) :: r => if bytes_eqb k k' then Some v else assoc_name k r
+  end.
+(* the definitions in the order the validator visits them, each under the name it is looked up
+   (and reported) with *)
+Definition remap (q : quirks) (vds : list vardef) : list vardef :=
+  let named := assign_names vds O in
+  let mapping := flat_map (fun cv => if is_upload_var (snd cv) then [] else [(fst cv, vd_name (snd cv))]) named in
+  map (fun cv =>
+         let eff := if q_remap_collision q || negb (is_upload_var (snd cv))
+                    then match assoc_name (fst cv) mapping with Some o => o | None => fst cv end
+                    else vd_name (snd cv) in
+         {| vd_name := eff; vd_type := vd_type (snd cv); vd_default := vd_default (snd cv); vd_dirs := vd_dirs (snd cv) |})
+      (sort_by_name named).
+
 (* ------------------------------------------------------------------ the pipeline *)
 Inductive presult :=
 | PNormErr                         (* normalisation stopped with an internal error: request rejected *)
@@ -663,7 +710,7 @@ Section Pipeline.
     match vars with
     | JObj ms =>
       match normalise vds ms with
-      | NOk ms' => PDone (JObj ms') (validate q S vds (JObj ms'))
+      | NOk ms' => PDone (JObj ms') (validate q S (remap q vds) (JObj ms'))
       | NErr => PNormErr
       | NPanic => PPanic
       | NFuel => PFuel
